@@ -1,3 +1,4 @@
+#![allow(deprecated)]
 //! C17: spending plans are faithful to the satisfier and report exact time locks.
 
 use std::collections::{BTreeSet, HashMap};
@@ -123,6 +124,68 @@ impl<'a, 'w> Satisfier<Dk> for PlanSat<'a, 'w> {
     }
 }
 
+/// `Assets::add(key expression)` must register every path the expression stands for (all
+/// multipath alternatives), and a descriptor derived from that very expression must then be
+/// plannable: the caller owns the key.
+fn assets_add_case(rep: &mut Report, case: u64, world: &World, rng: &mut crate::prng::Rng) {
+    let k = world.gen_xkey(rng, true, true, false);
+    let dpk = match DescriptorPublicKey::from_str(&k.text) {
+        Ok(d) => d,
+        Err(_) => return,
+    };
+    rep.eval();
+    let d2 = dpk.clone();
+    let assets = match guarded(std::panic::AssertUnwindSafe(move || LibAssets::new().add(d2))) {
+        Ok(a) => a,
+        Err(m) => {
+            rep.violation(case, format!("C17:panic:Assets::add:{}", norm_loc(&last_panic_loc())), format!("{} on {}", m, k.text));
+            return;
+        }
+    };
+    let n_alt = k.n_multipath.max(1);
+    let fp = dpk.master_fingerprint();
+    let mut missing = vec![];
+    for alt in 0..n_alt {
+        let mut path: Vec<u32> = if k.has_origin { k.origin_path.clone() } else { vec![] };
+        for st in &k.steps {
+            path.push(if st.len() == 1 { st[0] } else { st[alt % st.len()] });
+        }
+        let dp: bitcoin::bip32::DerivationPath = path.iter().map(|c| bitcoin::bip32::ChildNumber::from(*c)).collect::<Vec<_>>().into();
+        if !assets.keys.iter().any(|((f, p), _)| *f == fp && *p == dp) {
+            missing.push(format!("{}", dp));
+        }
+    }
+    if !missing.is_empty() {
+        rep.violation(case, "C17:assets-add-misses-paths".into(), format!("Assets::new().add({}) does not register the key source(s) {:?} (registered: {:?})", k.text, missing, assets.keys.iter().map(|((f, p), _)| format!("{}/{}", f, p)).collect::<Vec<_>>()));
+        return;
+    }
+    rep.count("assets-add-registers-every-alternative");
+    // plan a descriptor made of the same expression, for every alternative
+    let s = format!("wpkh({})", k.text);
+    let planned = guarded(std::panic::AssertUnwindSafe(|| -> Result<usize, String> {
+        let d = miniscript::Descriptor::<DescriptorPublicKey>::from_str(&s).map_err(|e| e.to_string())?;
+        let singles = d.into_single_descriptors().map_err(|e| e.to_string())?;
+        let mut n = 0;
+        for sd in singles {
+            let def = if sd.has_wildcard() { sd.at_derivation_index(7).map_err(|e| e.to_string())? } else { sd.at_derivation_index(0).map_err(|e| e.to_string())? };
+            match def.into_plan(&assets) {
+                Ok(_) => n += 1,
+                Err(_) => return Err(format!("alternative {} of {} is not plannable", n, s)),
+            }
+        }
+        Ok(n)
+    }));
+    match planned {
+        Ok(Ok(n)) => {
+            rep.count("own-key-expression-plannable");
+            rep.nontrivial(&format!("own|{}|{}", s, n));
+        }
+        Ok(Err(e)) if e.contains("not plannable") => rep.violation(case, "C17:own-key-not-plannable".into(), format!("with Assets::new().add({}): {}", k.text, e)),
+        Ok(Err(_)) => rep.count("own-key-expression-not-derivable"),
+        Err(m) => rep.violation(case, format!("C17:panic:own-key-plan:{}", norm_loc(&last_panic_loc())), format!("{} on {}", m, s)),
+    }
+}
+
 pub fn run(cfg: &RunCfg, rep: &mut Report) {
     let world = World::new(cfg.seed);
     let total = cfg.n_cases(4_000, 60_000);
@@ -130,6 +193,10 @@ pub fn run(cfg: &RunCfg, rep: &mut Report) {
     let n_worlds = if cfg.tier == Tier::Thorough { 24 } else { 8 };
     for i in cfg.cases(total) {
         let mut rng = cfg.case_rng(i);
+        {
+            let mut r2 = cfg.case_rng(i ^ 0x1700_0000_0000);
+            assets_add_case(rep, i, &world, &mut r2);
+        }
         // some keys are printed as definite xpub expressions
         let mut map = HashMap::new();
         let mut asset_expr: HashMap<usize, Vec<String>> = HashMap::new();
